@@ -60,6 +60,7 @@ from concurrent.futures import ThreadPoolExecutor
 import vlib
 
 NN, NA, MAXT = 3, 3, 24     # names, addresses, abstract times of the traces
+BURST = 300                   # events of a burst pushed right before a shutdown (C13)
 GEN_MAXT = 6                  # times the generator uses; MAXT beyond it is for inputs the family appends
 PREFIX = {"C10": "C10_", "C11": "C11_", "C12": "C12_", "C13": "C13_"}
 TAG_TEXT = {"rm_window": "crash between the remove of the old snapshot and the rename of the new one (compact())",
@@ -304,7 +305,7 @@ def run_all(ctx, binary, scheds, tag, par=None):
             elif a == "started":
                 summ["restarts"] += 1
                 summ["finals"][cur] = ln["obs"].get("st")
-            if a in ("feed", "tick", "leave", "shutdown", "started", "wit", "adv", "crash"):
+            if a in ("feed", "tick", "leave", "shutdown", "started", "wit", "adv", "crash", "burst"):
                 step += 1
                 if a in ("feed", "tick", "leave", "shutdown"):
                     summ["opcount"][cur].append([step, 0])
@@ -542,6 +543,11 @@ def run_c13(ctx, binary):
             # clock changes after the leave: the ticks keep appending (and compacting) behind the `leave` line
             for v in range(GEN_MAXT + 1, MAXT + 1):
                 steps += [{"a": "wit", "v": v}, {"a": "tick", "fail": 0}]
+        if is_up(steps) and any(st["a"] == "leave" for st in steps[max(j for j, st in enumerate(steps) if st["a"] == "started"):]):
+            # a burst of member events pushed without waiting, then the shutdown at once: some are still buffered in
+            # streamCh and are seen by the drain loop of the shutdown branch instead of the main loop
+            steps.append({"a": "burst", "evs": [{"ty": 1 if k % 5 else 3, "ms": [[1 + k % NN, 1 + (k // NN) % NA]], "t": 0}
+                                                for k in range(BURST)]})
         steps = close_session(steps)
         if i % 2 == 0:      # a further session appends after the `leave` line
             steps += [feed(1, [[1 + i % NN, 1]]), feed(6, [], 1 + i % GEN_MAXT), {"a": "tick", "fail": 0}]
@@ -554,7 +560,9 @@ def run_c13(ctx, binary):
     mc = bg.join()
     finish(ctx, "model_checking", mc, {}, summ, scheds, viol, seen,
            "TLC -simulate behaviours with a graceful leave (events, ticks, clock advances and forced compactions before and "
-           "after it), shutdown, restart, and for half of them a further session appending after the leave line; both "
+           "after it; then a burst of 300 member events pushed without waiting and the shutdown at once, so that the "
+           "shutdown drain loop sees buffered events), shutdown, restart, and for half of them a further session appending "
+           "after the leave line; both "
            "rejoin-after-leave settings and thresholds 0/300/128K; distinct = distinct (history, threshold)",
            {"model_constants": "exhaustive: 2 names, times 0..%d, <=%d inputs, %d sessions, both rejoin-after-leave settings, "
                                "thresholds {0,60,never}" % (2 if th else 1, 5, 3 if th else 2),
